@@ -12,6 +12,7 @@
 
 #include "EbDefinitions.h"
 #include "EbDecHandle.h"
+#include "EbVerifHooks.h"
 #include "EbDecUtils.h"
 
 #include "EbDecInverseQuantize.h"
@@ -321,6 +322,7 @@ void dec_av1_loop_restoration_filter_row(EbDecHandle *dec_handle, int32_t sb_row
                     nsync = 0;
                 while (*sb_lr_completed_in_prev_row < (sb_col_y + nsync))
                     ;
+                SVT_VERIF_HB_ACQUIRE(sb_lr_completed_in_prev_row);
             }
         }
         int      sx = 0, sy = 0;
@@ -465,6 +467,7 @@ void dec_av1_loop_restoration_filter_row(EbDecHandle *dec_handle, int32_t sb_row
         }
 
         if (is_mt) {
+            SVT_VERIF_HB_RELEASE(sb_lr_completed_in_row);
             *sb_lr_completed_in_row = sb_col_y;
         }
     }
